@@ -354,6 +354,11 @@ func computeRandom() float64 {
 			continue
 		}
 		frac, _ := math.Frexp(x) // 52 bits of randomness
+		if frac == 0.5 {
+			// The result would be exactly 0, which the upload server
+			// rejects as an invalid X.
+			continue
+		}
 		return frac*2 - 1
 	}
 }
